@@ -168,7 +168,7 @@ def rgbaExpected (w h : Nat) (data : List Nat) : Option (List Pixel) :=
   else some ((Spec.C24Png.chunksOf 4 (w * h) data).map fun s =>
     { comps := s.take 3, cmax := 255, alpha := s.getD 3 0, amax := 255 })
 
-def handle (req impl : String) : String × String :=
+def handle0 (req impl : String) : String × String :=
   match req.splitOn " " with
   | ["png", _cfg, w, h, depth, ct, il, filters, plte, trns, splits, z, anc, mutl, rows, png] =>
     match w.toNat?, h.toNat?, depth.toNat?, ct.toNat?, il.toNat?, optHex? plte, optHex? trns,
@@ -254,6 +254,13 @@ def handle (req impl : String) : String × String :=
       (m, o)
     | none => ("bad-request", "na")
   | _ => ("bad-request", "na")
+
+/-- Where the oracle fails the run only consults the known-findings matchers; so that a listed
+finding cannot hide *another* deviation on the same input, a model/implementation disagreement is
+appended to the failure reason (the matchers are anchored and then no longer match). -/
+def handle (req impl : String) : String × String :=
+  let (m, o) := handle0 req impl
+  if o.startsWith "fail" ∧ m ≠ impl then (m, o ++ ";model-differs") else (m, o)
 
 end C24Drv
 
